@@ -208,3 +208,14 @@ def map_units(func_path, names=None, extra=None, include_witness=False):
                 raise AnalysisError("unit %s: %s" % (name, err.strip().splitlines()[-1] if "Traceback" in err else err))
             results[name] = res
     return results
+
+
+def fn_digest(node):
+    """Digest of a function's AST ignoring ids and source positions (identical digests = identical code)."""
+    import hashlib
+    h = hashlib.sha1()
+    for n in walk(node):
+        h.update((n.get("kind", "") + "|" + str(n.get("opcode", "")) + "|" + str(n.get("value", "")) + "|" +
+                  str(n.get("name", "")) + "|" + str((n.get("referencedDecl") or {}).get("name", "")) + "|" +
+                  str((n.get("type") or {}).get("qualType", "")) + ";").encode())
+    return h.hexdigest()
